@@ -19,7 +19,7 @@ NONTRIVIAL = {"reply-delivered", "reply-refused", "noreply-disconnect", "noreply
 def gen_cases(tier, rnd):
     cases = [c for c in rg.scenarios() if c[1][0] == 1]
     cases += rc.load_corpus("C09")
-    n_plain, n_timed = (1500, 110) if tier == "quick" else (30000, 1500)
+    n_plain, n_timed = (1500, 160) if tier == "quick" else (30000, 2000)
     cases += rg.enum_cases(3 if tier == "quick" else 4, 1, 2)
     for i in range(n_plain):
         cfg = (1, rnd.choice((1, 2, 2, 3, 3, 4, 50)), -1)
